@@ -1,5 +1,5 @@
 SPECIFICATION Spec
-INVARIANTS C03_CommitNotAhead C03_SyncAckRecorded C03_StartAtCommit C03_NoGapInStream C03_OnlyAssigned C03_StoredOnly C03_DeliveredBeforeCovered C03_AtLeastOnce
+INVARIANTS C03_CommitNotAhead C03_SyncAckRecorded C03_StartAtCommit C03_NoGapInStream C03_OnlyAssigned C03_StoredOnly C03_DeliveredBeforeCovered C03_AtLeastOnce C03_DeliveredReachesApp
   C15_NextWaits C15_CloseWaits C15_EndCauses C15_NoHeartbeatAfterEnd C15_HeartbeatInterval C15_LeaveOnClose C15_BackoffAfterFailedJoin
   C09r_QuietAfterClose C09r_CloseReturns C09r_AppReturns C09r_ConnsClosed
 POSTCONDITION TraceAccepted
